@@ -45,7 +45,24 @@ def gen_pgs(m, rng, job):
     return oplist, {}
 
 
-S2D_TEXTS = ['1', '2', '22', '31', '39', '38;5;1', '38;2;1;2;3', '48;5;2', '0', '4', '24', '58;5;3', '59', '10', '11']
+def gen_pgs_codes(m, rng, job):
+    """Every code 0..120 alone, after/before another code, and on top of a prior state (settings_to_dict)."""
+    oplist = []
+    for c in range(0, 121):
+        for codes in ([c], [1, c], [c, 31], [44, c]):
+            for enc in ('str', 'ints'):
+                o = {'op': 'pgs', 'codes': codes, 'enc': enc, 'adderr': False}
+                oplist.append(o)
+                ops.run(m, o)
+        if c not in (38, 48, 58):
+            o = {'op': 's2d', 'S': ['3', str(c)], 'old': ['1', '44', '31']}
+            oplist.append(o)
+            ops.run(m, o)
+    return oplist, {}
+
+
+S2D_TEXTS = ['1', '2', '22', '31', '39', '38;5;1', '38;2;1;2;3', '48;5;2', '0', '4', '24', '58;5;3', '59', '10', '11', '107', '97', '53', '55',
+             '26', '50', '51', '54', '38;5;2', '58;2;7;8;9', '7', '27', '9', '29', '8', '28', '5', '25', '3', '23', '21']
 
 
 def gen_s2d(m, rng, job):
